@@ -160,6 +160,16 @@ impl SharedBlockstore {
             r matches Ok(Some(info)) ==> info.hash == hash && info.parent.0.0 < shred.spec_shred().spec_payload().header.slot.0,
     { unimplemented!() }
 }
+// read access to the blockstore (`self.blockstore.read().await`): the queries return whatever the store holds
+#[verifier::external_body] pub struct BlockstoreRead { _p: () }
+impl SharedBlockstore {
+    #[verifier::external_body]
+    pub fn read(&self) -> (r: &BlockstoreRead) { unimplemented!() }
+}
+impl BlockstoreRead {
+    #[verifier::external_body]
+    pub fn cached_commitment(&self, slot: Slot, slice: SliceIndex) -> (r: Option<SliceCommitment>) { unimplemented!() }
+}
 impl SharedPool {
     // `self.pool.write().await.add_block(id, parent).await` (R8); Pool::add_block asserts the parent is in an earlier slot
     #[verifier::external_body]
@@ -317,6 +327,11 @@ ensures
             (response matches RepairResponse::LastSliceRoot(q, l, root, proof) ==> (q matches RepairRequestType::LastSliceRoot(b) && final(self).slice_roots@.contains_key((b, l)) && final(self).slice_roots@[(b, l)] == root)),
         (old(self).outstanding_requests@.contains_key(spec_req_hash(response.req())) && old(self).accepts(response)) ==>
             (response matches RepairResponse::SliceRoot(q, root, proof) ==> (q matches RepairRequestType::SliceRoot(b, sl) && final(self).slice_roots@.contains_key((b, sl)) && final(self).slice_roots@[(b, sl)] == root)),
+        // [C14.rejected_response_changes_nothing C15.last_slice_claim_needs_last_leaf_proof]
+        // (in particular a LastSliceRoot answer is only believed with a proof that the slice is the LAST leaf)
+        (old(self).outstanding_requests@.contains_key(spec_req_hash(response.req())) && !old(self).accepts(response)) ==>
+            final(self).slice_roots@ == old(self).slice_roots@ && final(self).outstanding_requests@ == old(self).outstanding_requests@
+            && final(self).blockstore.stored() == old(self).blockstore.stored(),
         // [C14.invalid_response_leaves_request_outstanding]
         (old(self).outstanding_requests@.contains_key(spec_req_hash(response.req())) && !old(self).accepts(response)) ==>
             final(self).outstanding_requests@.contains_key(spec_req_hash(response.req())),
